@@ -297,6 +297,11 @@ def stmt (st : St) (ws : List String) : St × String :=
   | ["value", x, c] => defStmt st x (do pure (.value (← st.cell c))) .s
   | ["mapc", x, c, k] => defStmt st x (do pure (.mapc (← st.cell c) (← num k))) .c
   | ["lift2", x, a, b, op] => defStmt st x (do pure (.lift2 (← st.cell a) (← st.cell b) (← num op))) .c
+  | ["lift2d", x, a, b, c, op] =>
+    -- a lift whose function also captures (and declares) cell `c` without reading it: the value is that of `lift2`
+    (match st.cell c with
+     | some _ => defStmt st x (do pure (.lift2 (← st.cell a) (← st.cell b) (← num op))) .c
+     | none => (st, "skip"))
   | "liftn" :: x :: cs =>
     defStmt st x (do
       let cs ← cells st cs
